@@ -545,13 +545,13 @@ func TestVerif_C20(t *testing.T) {
 		c.Assume("the clause 'sends-less-than-limits-allow' (a stale MAX_* must not lower what the conn sends) is evaluated only for histories without loss/PTO, after flushing everything and 20 ms of fake time")
 		c.Assume("the scripted peer is taken to know every MAX_DATA / MAX_STREAM_DATA frame the conn has put on the wire, even in packets it later declares lost")
 
-		sides := vx.Pick(c, []string{"server"}, []string{"server", "client"})
-		types := vx.Pick(c, []string{"uni"}, []string{"uni", "bidi"})
+		type combo struct{ side, styp string }
+		combos := vx.Pick(c, []combo{{"server", "uni"}}, []combo{{"server", "uni"}, {"client", "bidi"}})
 		sendOps := vx.Pick(c,
 			[]string{"w100:0", "w5000:0", "fl:0", "w100:1", "fl:1", "md:-50", "md:120", "msd0:-50", "msd0:0", "msd0:120", "ack", "loss", "pto"},
 			[]string{"w100:0", "w5000:0", "fl:0", "w100:1", "w5000:1", "fl:1", "md:-50", "md:0", "md:120", "msd0:-50", "msd0:0", "msd0:120", "msd1:120", "ack", "loss", "pto"})
 		recvOps := vx.Pick(c,
-			[]string{"s0:+40", "s0:sl0", "s0:sl1", "s0:cl0", "s0:cl1", "s1:+40", "s1:cl0", "s1:cl1", "rd0", "rs0", "cr0", "ack", "loss"},
+			[]string{"s0:+40", "s0:sl0", "s0:sl1", "s0:cl0", "s0:cl1", "s1:+40", "s1:cl0", "s1:cl1", "r1:cl1", "rd0", "rs0", "cr0", "ack", "loss"},
 			[]string{"s0:+40", "s0:sl-1", "s0:sl0", "s0:sl1", "s0:cl-1", "s0:cl0", "s0:cl1", "s1:+40", "s1:sl1", "s1:cl0", "s1:cl1", "r0:sl1", "r0:cl0", "r1:cl1", "rd0", "rs0", "rd1", "cr0", "cr1", "ack", "loss"})
 		type part struct {
 			name  string
@@ -561,19 +561,17 @@ func TestVerif_C20(t *testing.T) {
 			exec  func(*vx.Ctx, *vx.W, c20Case)
 		}
 		parts := []part{
-			{"send", sendOps, vx.Pick(c, 4, 5), c20SendGen{}, c20ExecSend},
-			{"recv", recvOps, vx.Pick(c, 4, 5), c20RecvGen{}, c20ExecRecv},
+			{"recv", recvOps, vx.Pick(c, 5, 5), c20RecvGen{}, c20ExecRecv},
+			{"send", sendOps, vx.Pick(c, 5, 5), c20SendGen{}, c20ExecSend},
 		}
 		for _, p := range parts {
 			vx.Enumerate(c, p.name, vx.Opts{Serial: true, Crumb: true}, func(yield0 func(c20Case) bool) {
 				yield := qpeerDeadlineYield(c, yield0)
-				for _, side := range sides {
-					for _, styp := range types {
-						if !qpeerEnumerate(p.root, p.ops, p.depth, func(path []string) bool {
-							return yield(c20Case{Side: side, Styp: styp, Ops: path})
-						}) {
-							return
-						}
+				for _, cb := range combos {
+					if !qpeerEnumerate(p.root, p.ops, p.depth, func(path []string) bool {
+						return yield(c20Case{Side: cb.side, Styp: cb.styp, Ops: path})
+					}) {
+						return
 					}
 				}
 			}, func(w *vx.W, cs c20Case) { p.exec(c, w, cs) })
